@@ -194,6 +194,10 @@ func c09Collection(r *an.Run) {
 						good = true
 					}
 				}
+				// … or the line a bufio.Reader read in this iteration, without its terminator
+				if c := lineOfReader(load.Common().Args[1]); c != nil && l.Blocks[c.Block()] {
+					good = true
+				}
 			}
 			r.Check(good, short(f)+"|scanner-order", load.Pos(), "patches of the -P file are loaded line by line in file order")
 		}
